@@ -68,19 +68,28 @@ def shape_lit(s):
     return "(%s %s %s)" % (ctor, shape_lit(s[1]), shape_lit(s[2]))
 
 
+CENTER_FORM = ["tuple"]      # how build() hands over centres: tuple / list / float ndarray (set per case by the stages)
+
+
+def _c(c):
+    import numpy as np
+    f = CENTER_FORM[0]
+    return tuple(c) if f == "tuple" else list(c) if f == "list" else np.array(c, dtype=float)
+
+
 def build(s, n=1.5):
     from holopy.scattering import Sphere, Ellipsoid
     from holopy.scattering.scatterer.csg import Union, Difference, Intersection
     from holopy.scattering import LayeredSphere
     if s[0] == "lsph":
-        return LayeredSphere(n=[n + 0.125 * i for i in range(len(s[2]))], t=list(s[2]), center=tuple(s[1]))
+        return LayeredSphere(n=[n + 0.125 * i for i in range(len(s[2]))], t=list(s[2]), center=_c(s[1]))
     if s[0] == "sph":
         rs = s[2]
         if len(rs) == 1:
-            return Sphere(n=n, r=rs[0], center=tuple(s[1]))
-        return Sphere(n=[n + 0.125 * i for i in range(len(rs))], r=list(rs), center=tuple(s[1]))
+            return Sphere(n=n, r=rs[0], center=_c(s[1]))
+        return Sphere(n=[n + 0.125 * i for i in range(len(rs))], r=list(rs), center=_c(s[1]))
     if s[0] == "ell":
-        return Ellipsoid(n=n, r=tuple(s[2]), center=tuple(s[1]))
+        return Ellipsoid(n=n, r=tuple(s[2]), center=_c(s[1]))
     cls = {"union": Union, "diff": Difference, "inter": Intersection}[s[0]]
     return cls(build(s[1], n), build(s[2], n))
 
@@ -158,6 +167,7 @@ def stage_containment(ctx):
         t = [dy(rng, -3, 3) for _ in range(3)]
         while len(set(t)) < 3:
             t = [dy(rng, -3, 3) for _ in range(3)]
+        CENTER_FORM[0] = rng.choice(["tuple", "tuple", "list", "ndarray", "ndarray"])
         try:
             obj = build(s)
         except TypeError as e:
@@ -181,6 +191,22 @@ def stage_containment(ctx):
             tr = obj.translated(list(t))
         ctx.count("translated-form:" + form)
         cont_t = [bool(x) for x in tr.contains(P + np.array(t))]
+        # a translated copy translated again, then the ORIGINAL and the first copy looked at once more: translated() returns a
+        # new scatterer and leaves the one it was called on where it was (whatever container holds the centre)
+        t2 = [dy(rng, -2, 2) or 0.5 for _ in range(3)]
+        tr2 = tr.translated(np.array(t2)) if k % 2 else tr.translated(*t2)
+        ctx.explored += 1
+        ctx.count("center-form:" + CENTER_FORM[0])
+        cont_again = [bool(x) for x in obj.contains(P)]
+        cont_t_again = [bool(x) for x in tr.contains(P + np.array(t))]
+        cont_t2 = [bool(x) for x in tr2.contains(P + np.array(t) + np.array(t2))]
+        if cont_again != cont or cont_t_again != cont_t or [list(map(float, pr)) for pr in obj.bounds] != [list(map(float, pr)) for pr in b]:
+            ctx.violation("translate:moves-original", "translated() moved the scatterer it was called on (containment / bounds of the "
+                          "original or of the first copy changed after a later translation)",
+                          dict(kind="translate-purity", shape=s, t=t, t2=t2, form=form, center_form=CENTER_FORM[0]))
+        elif cont_t2 != cont:
+            ctx.violation("translate:chain", "translated(t).translated(t2).contains(p+t+t2) != contains(p)",
+                          dict(kind="translate-purity", shape=s, t=t, t2=t2, form=form, center_form=CENTER_FORM[0]))
         # the bounding box moves with the scatterer (its box was asked for BEFORE the translation, above)
         tb = tr.bounds
         ctx.explored += 1
